@@ -184,7 +184,8 @@ mod search {
     fn import(rng: &mut Rng) -> (Import, s::Sources) {
         if rng.n(2) == 0 { (Import { sources: Sources::All, relative_to: "my_pkg", created_at: at() }, s::Sources::All) }
         else {
-            let v = vec![format!("crate::m{}", rng.n(5)), format!("dep{}", rng.n(5))];
+            // order and repetitions are kept as listed (neither sorted nor de-duplicated)
+            let v: Vec<String> = (0..1 + rng.n(4)).map(|_| ["pavex", "crate", "crate::routes", "dep_b", "dep_a", "Zeta", "alpha"][rng.n(7) as usize].to_string()).collect();
             (Import { sources: Sources::Some(v.iter().cloned().map(Into::into).collect()), relative_to: "my_pkg", created_at: at() }, s::Sources::Some(v))
         }
     }
@@ -300,22 +301,23 @@ mod search {
                 _ => {
                     // a chain of routing modifiers, then nest or routes; chains repeat prefixes/domains on purpose so that
                     // two consecutive chains with the same prefix and domain occur
-                    let prefixes = ["/api", "/v1", "/admin"];
-                    let domains = ["example.com", "{sub}.example.com"];
+                    // verbatim means verbatim: case, surrounding blanks and non-ASCII are the compiler's business, not the builder's
+                    let prefixes = ["/api", "/v1", "/Admin Panel", "/é/{Id}"];
+                    let domains = ["example.com", "{sub}.example.com", "API.Example.COM", "{Tenant}.example.com", " spaced.example.com "];
                     let (mut wp, mut wd): (Option<s::PathPrefix>, Option<s::Domain>) = (None, None);
                     let mut m = if rng.n(2) == 0 {
-                        let p = prefixes[rng.n(3) as usize];
+                        let p = prefixes[rng.n(4) as usize];
                         let (l, m) = (line!(), bp.prefix(p)); wp = Some(s::PathPrefix { path_prefix: p.into(), registered_at: loc(l) }); m
                     } else {
-                        let d = domains[rng.n(2) as usize];
+                        let d = domains[rng.n(5) as usize];
                         let (l, m) = (line!(), bp.domain(d)); wd = Some(s::Domain { domain: d.into(), registered_at: loc(l) }); m
                     };
                     for _ in 0..rng.n(3) {
                         if rng.n(2) == 0 {
-                            let p = prefixes[rng.n(3) as usize];
+                            let p = prefixes[rng.n(4) as usize];
                             let l = line!(); m = m.prefix(p); wp = Some(s::PathPrefix { path_prefix: p.into(), registered_at: loc(l) });
                         } else {
-                            let d = domains[rng.n(2) as usize];
+                            let d = domains[rng.n(5) as usize];
                             let l = line!(); m = m.domain(d); wd = Some(s::Domain { domain: d.into(), registered_at: loc(l) });
                         }
                     }
